@@ -209,7 +209,7 @@ class ExtBlkRef(TlbScheme):
     """
 
     def __init__(self, cell_slice: Slice):
-        self.end_lt = cell_slice.load_int(64)
+        self.end_lt = cell_slice.load_uint(64)
         self.seqno = cell_slice.load_uint(32)
         self.root_hash = cell_slice.load_bytes(32)
         self.file_hash = cell_slice.load_bytes(32)
